@@ -264,6 +264,7 @@ func propC04(r *kernel.Run) {
 
 	// ---- node side: substituted responses are refused, the genuine one is accepted
 	nodeBefore := simstore.Snapshot(contextBG, nodeW.Inner, (*types.NodeCredentials)(nil))
+	var reuse *types.NodeCredentials
 	subs := tp.Draw(5)
 	if subs > 0 {
 		bad := proto.Clone(resp).(*types.FetchNodeCredentialsResponse)
@@ -315,7 +316,14 @@ func propC04(r *kernel.Run) {
 			}
 			var herr error
 			if p, msg, site := kernel.Guard(func() {
-				_, herr = c2.HandleFetchNodeCredentialsResponse(nodeW.Ctx, nodeW.Storage, bad, nodeW.Opts(nodeOpts...)...)
+				hopts := nodeW.Opts(nodeOpts...)
+				if tp.Draw(4) == 0 {
+					// the application persists the credentials itself: the response is judged all the same
+					hopts = append(hopts, nodeenrollment.WithSkipStorage(true))
+					what += "+skip-storage"
+				}
+				_, herr = c2.HandleFetchNodeCredentialsResponse(nodeW.Ctx, nodeW.Storage, bad, hopts...)
+				reuse = c2
 			}); p {
 				fail("no-panic", "node-handle-panic/"+site, "%s", msg)
 			}
@@ -330,6 +338,11 @@ func propC04(r *kernel.Run) {
 	c3, lerr := types.LoadNodeCredentials(contextBG, nodeW.Storage, nodeenrollment.CurrentId, nodeW.Opts()...)
 	if lerr != nil {
 		fail("node", "node-credentials-unloadable", "%v", lerr)
+	}
+	if reuse != nil && tp.Draw(2) == 0 {
+		// the application keeps working with the credentials object that has just refused the substituted response
+		c3 = reuse
+		r.Count("cfg.same_credentials_object_after_refusal", 1)
 	}
 	final, err := c3.HandleFetchNodeCredentialsResponse(nodeW.Ctx, nodeW.Storage, resp, nodeW.Opts(nodeOpts...)...)
 	if err != nil {
